@@ -2,6 +2,8 @@
 //!
 //! Any number of tasks may wait on (clones of) the same flag: each registers its own waker.
 
+#![cfg_attr(watchexec_verif, allow(missing_docs))]
+
 use std::{
 	mem::take,
 	pin::Pin,
@@ -48,7 +50,14 @@ impl Flag {
 		#[cfg(watchexec_verif)]
 		crate::verif::emit("raise", self.verif_id(), 0);
 		self.0.set.store(true, Relaxed);
+		#[cfg(not(watchexec_verif))]
 		let wakers = take(&mut *self.0.wakers.lock().unwrap_or_else(PoisonError::into_inner));
+		#[cfg(watchexec_verif)]
+		let wakers = {
+			let mut wakers = self.0.wakers.lock().unwrap_or_else(PoisonError::into_inner);
+			crate::verif::emit("flag_take", self.verif_id(), wakers.len());
+			take(&mut *wakers)
+		};
 		for waker in wakers {
 			waker.wake();
 		}
@@ -58,7 +67,7 @@ impl Flag {
 #[cfg(watchexec_verif)]
 impl Flag {
 	/// Identity of the shared flag, for trace points.
-	pub(crate) fn verif_id(&self) -> usize {
+	pub fn verif_id(&self) -> usize {
 		Arc::as_ptr(&self.0) as usize
 	}
 }
@@ -69,20 +78,30 @@ impl Future for Flag {
 	fn poll(self: Pin<&mut Self>, cx: &mut Context<'_>) -> Poll<()> {
 		// quick check to avoid registration if already done.
 		if self.0.set.load(Relaxed) {
+			#[cfg(watchexec_verif)]
+			crate::verif::emit("flag_fast", self.verif_id(), 1);
 			return Poll::Ready(());
 		}
+		#[cfg(watchexec_verif)]
+		crate::verif::emit("flag_fast", self.verif_id(), 0);
 
 		let mut wakers = self.0.wakers.lock().unwrap_or_else(PoisonError::into_inner);
 
 		// Need to check condition **while holding the lock** to avoid a race condition that would
 		// result in lost notifications: `raise()` sets the flag before it takes the wakers.
 		if self.0.set.load(Relaxed) {
+			#[cfg(watchexec_verif)]
+			crate::verif::emit("flag_check", self.verif_id(), 1);
 			return Poll::Ready(());
 		}
+		#[cfg(watchexec_verif)]
+		crate::verif::emit("flag_check", self.verif_id(), 0);
 
 		if !wakers.iter().any(|waker| waker.will_wake(cx.waker())) {
 			wakers.push(cx.waker().clone());
 		}
+		#[cfg(watchexec_verif)]
+		crate::verif::emit("flag_reg", self.verif_id(), wakers.len());
 		Poll::Pending
 	}
 }
